@@ -28,6 +28,11 @@ CHECKS = {
    note=TB + "roc_curve / precision_recall_curve are external: only the criterion value attained by threshold_ is compared, never the threshold itself; min_rate values are kept 1e-6 away from attainable rates unless dyadic so float rounding cannot decide feasibility.",
    technique="Lean 4 proof (calibration master theorem) + exact Rat twin + brute-force oracle",
    ref="§6 C16"),
+ 'C18': dict(
+   text="Generic theorems (any value type, equality on the stored object) about every well-formed constructor table: the stored value of a non-alias parameter is the argument itself or the supplied deprecated alias, alias attributes hold the sentinel, aliases warn and name a real parameter, set_params/get_params round-trip, and clone (= construct from get_params) reproduces every parameter. The 17 tables and the 140-row method table are REGENERATED from /repo's __init__ methods and public methods by the AST translator on every run; one `decide` obligation per table (C18_wf_<Class>) and one for the method table (every public query method starts with a check_is_fitted guard). The harness cross-checks the translator against the real constructors with sentinel objects and runs the property oracle (identity, aliases, clone, NotFittedError on 17×all methods, pickle fidelity bitwise).",
+   note=TB + "get_params / clone / pickle are scikit-learn/CPython behaviour (exercised, not modelled beyond 'read the attribute named like the parameter'); pickle fidelity is observed only.",
+   technique="Lean 4 proof (generic round-trip theorems + decide on tables regenerated by a Python-AST translator)",
+   ref="§6 C18"),
 }
 
 NOT_YET = {}
@@ -58,7 +63,7 @@ def main():
         hooks_commits = [l.split()[0] for l in open(hp) if l.strip()]
     m = {
         'version': 1,
-        'setup_cmd': 'cd lean && lake build',
+        'setup_cmd': 'python3 translate/translate.py && cd lean && lake build',
         'hooks': {
             'guard': 'METRIC_LEARN_VERIF',
             'enable': 'no source hooks are needed: the harness observes the real code by wrapping module-level names in-process (RandomState, NearestNeighbors, scipy.optimize.minimize, …); METRIC_LEARN_VERIF=1 is reserved should a hook become necessary',
